@@ -26,7 +26,7 @@ check("C11", "exploration",
       "History monitor with an executable sparse-array model: every operation history up to length 3 (quick) / 4 "
       "(thorough) over a 36-operation alphabet is executed on the real Fragments (bounded-exhaustive), plus seeded random "
       "histories and every real Packet.pack() of generated declarations under a shadowing Fragments subclass. "
-      "Held = no divergence on the executions produced; not a proof beyond the enumerated bound.",
+      "Held = no divergence on the executions produced; not a proof beyond the enumerated bound. Also: buffers created with other fill bytes.",
       "Trusts the 40-line shadow model (dict position->byte, extent, cursor) as the meaning of C11 and that unique byte "
       "values make histories unambiguous. Empty-chunk raising behaviour is not judged (not fixed by the property).",
       "runtime monitoring: history + executable model (shadow sparse array), bounded-exhaustive histories, monitored real pack() calls",
@@ -53,7 +53,7 @@ check("C04", "exploration",
 check("C06", "exploration",
       "1098 real classes (23 sizing modes x include_delimiter x search_buffer_length x 3 code-generation option sets, Data between "
       "two sentinels) run on ~40k (quick) / ~1M (thorough) adversarial inputs; a ten-line first-occurrence / exact-length model decides "
-      "value, cursor (through the sentinel and the end offset), error/no-error and the packed bytes.",
+      "value, cursor (through the sentinel and the end offset), error/no-error and the packed bytes. Also: the field inside every wrapper (when, repeated, Ref(Sub) with its own window, selector literal, positioned) and context-sensitive regex delimiters (look-behind, word boundary, anchors) judged where both readings of 'at or after the cursor' agree.",
       "Trusts the small model in c06.py (Python re semantics for regex markers). pack() of regex markers not kept in the value is not judged (F2).",
       "runtime monitoring: reference-model oracle over adversarial inputs on sentinel-framed declarations",
       "DESIGN.md section 3 C06")
@@ -61,7 +61,7 @@ check("C06", "exploration",
 check("C09", "exploration",
       "Seeded random expression trees (depth<=4 quick / <=6 thorough; every binary operator in 4 operand shapes, unary, n-ary forms) are "
       "compiled by the real deferred-expression machinery and evaluated on parsed packets; value, exact type and exception class are "
-      "compared with strict eager evaluation; the same trees are placed as Data size, repeat count and when condition in fresh classes.",
+      "compared with strict eager evaluation; the same trees are placed as Data size, repeat count and when condition in fresh classes. Also: described / bit / optional / repeated leaves (oracle decodes the parsed value itself) and chooses / if_true_then_else over all call forms and key types, multi-level tables.",
       "Trusts Python's own eager evaluation of the same tree as the meaning; trees with huge pow/shift are skipped before the library is called (counted).",
       "runtime monitoring: differential oracle (compiled deferred expression vs eager evaluation) over random trees",
       "DESIGN.md section 3 C09")
@@ -89,7 +89,7 @@ check("C03", "exploration",
       "The same generated declaration is defined under 5 (quick) / all 16 (thorough) combinations of the four code-generation options "
       "and every variant is executed in lock-step with the all-generic variant on valid, truncated, corrupted and random inputs and on "
       "well-typed and ill-typed value trees: outcome class, field values, end offset and packed bytes must coincide. Generated struct "
-      "formats seen are recorded.",
+      "formats seen are recorded. Also: hand-written layouts with user descriptors (every subset of the sync hooks), embedded packets and sizes/counts from absent optionals under all 16 option sets.",
       "The all-generic variant of the real library is the reference (as the property states). Wrong-length Data(n) values are out of domain.",
       "runtime monitoring: lock-step differential execution of code-generation variants of the real library",
       "DESIGN.md section 3 C03")
@@ -98,7 +98,7 @@ check("C05", "exploration",
       "Arithmetic oracle (no struct/int.from_bytes) over 260 (quick) / 1242 (thorough) Int configurations (width x signedness x 5 "
       "endianness spellings x class default) in three layouts and three code-generation option sets: all 256 patterns for n=1, all "
       "65536 for n=2 in thorough (exhaustive), byte-lane sweeps over four backgrounds and boundaries above; every representable value "
-      "packs back; out-of-range and non-integers must raise PacketError; truncations must not decode.",
+      "packs back; out-of-range and non-integers must raise PacketError; truncations must not decode. Also: optional/until/selected layouts, value histories through one field object (equal non-integers after integers), run-time constructed Ints through Ref callables with id recycling.",
       "Trusts the arithmetic definition of two's complement in c05.py (decode and encode cross-checked against each other on every pattern).",
       "runtime monitoring: arithmetic oracle over enumerated configurations and byte patterns",
       "DESIGN.md section 3 C05")
@@ -107,7 +107,7 @@ check("C07", "exploration",
       "All 128 compositions of 8 bits x all 256 patterns (exhaustive), all 32768 compositions of 16 bits in thorough, sampled "
       "compositions of 16..128 bits, runs embedded between other fields, two runs per class, three option sets: unpack, pack of in-range, "
       "out-of-range, negative and huge per-field values, repeated pack, round trips, truncations; non-multiple-of-8 runs must be rejected "
-      "with ByteBoundaryError at class definition.",
+      "with ByteBoundaryError at class definition. Also: failed-pack histories and bit-run packets reached by nesting and by copy/deepcopy/pickle/prototype clone.",
       "Trusts the integer-arithmetic model of a big-endian MSB-first shared integer written from the statement.",
       "runtime monitoring: arithmetic oracle over enumerated bit-width compositions",
       "DESIGN.md section 3 C07")
@@ -126,7 +126,7 @@ check("C10", "exploration",
       "Move pseudo-field must begin/end at the same relative position (bit runs compared as a whole); alignment arithmetic (least "
       "advance < alignment, multiple relative to the reference) and at/shift targets are checked model-free for constant arguments and "
       "against the reference model for field/callable targets; skipped bytes must be '.'. Positioning-heavy declarations, three "
-      "references, class align, repeated(aligned=), nesting, several start offsets.",
+      "references, class align, repeated(aligned=), nesting, several start offsets. Also: positions given by described fields (stored vs computed offsets).",
       "Trusts wrapper entry/exit cursors as read/write positions. Negative cursors/alignments are undefined and skipped; overlapping trees are C01's.",
       "runtime monitoring: paired parse/serialize event-tree comparison + Move arithmetic monitor",
       "DESIGN.md section 3 C10")
@@ -134,7 +134,7 @@ check("C10", "exploration",
 check("C14", "exploration",
       "Metamorphic relation executed on the real library: unpack(pre+raw+post, len(pre)) vs unpack(raw) for hostile pre/post (delimiters, "
       "copies of raw, 0xff runs): equal values, end offset shifted by len(pre); failing inputs fail identically with every fields_stack "
-      "offset shifted. Declarations are the generator's minus those the statement excludes.",
+      "offset shifted. Declarations are the generator's minus those the statement excludes. Also: positions written before when()/repeated() (prefix relation only) and a population of overlapping fixed-size layouts (backward at / negative shift).",
       "Model-free. The parsed region is [offset, highest cursor reached); post is omitted for read-to-end fields and lengthenable regex delimiters.",
       "runtime monitoring: metamorphic oracle (padding invariance) over generated declarations",
       "DESIGN.md section 3 C14")
@@ -144,7 +144,7 @@ check("C17", "exploration",
       "4 (quick) / 6 (thorough) over {set tracked x2, set described x2, delete, read, pack} from 8-9 start states (constructor forms and "
       "unpack) is executed on 12 real classes (AutoLength / Auto, alone and inside a vectorised run, repeated tracked field; three option "
       "sets) and compared after the operations: attribute reads, pack bytes (reference encoding by int.to_bytes), pack purity, no __dict__; "
-      "two-packet histories check the flag is per instance. Exhaustive for the stated bound.",
+      "two-packet histories check the flag is per instance. Exhaustive for the stated bound. Also: positioned, embedded, optional-tracked and chained layouts, failing computed reads on two live packets, explicit-equals-computed start states, copies.",
       "Trusts the state machine in c17.py as the meaning of the statement; bounded-exhaustive, not a proof beyond the bound.",
       "runtime monitoring: exhaustive bounded operation histories against an executable state-machine model",
       "DESIGN.md section 3 C17")
@@ -154,7 +154,7 @@ check("C19", "exploration",
       "Cls() and Cls(**subset) for keyword subsets of size 0, 1, 2 and all over generated declarations with user defaults on ~45% of the "
       "fields (Int/Bits/Data/list/optional defaults, prototype instances with their own defaults, described fields): visible values must "
       "equal the model's default table overridden by exactly the keywords, pack() must be the reference encoding; freshness of lists and "
-      "nested packets is checked by object identity and by mutating one packet and re-reading others.",
+      "nested packets is checked by object identity and by mutating one packet and re-reading others. Also: kept-and-modified prototype objects, implicit sub-packet declarations, embedded-reference defaults.",
       "Trusts model.defaults / model.encode as the statement's default table and encoding. F2 (regex delimiter not kept) exhibited by a probe, reported as KNOWN-FINDING.",
       "runtime monitoring: reference-model oracle on constructed packets + object-identity aliasing scan",
       "DESIGN.md section 3 C19")
@@ -163,7 +163,7 @@ check("C20", "exploration",
       "Pairs of real packets (parsed twice, built twice, parsed vs built, described fields left automatic vs explicit, before/after "
       "pack(), one leaf changed at any depth, same declaration in two classes, non-packets) over declarations emphasising "
       "at/shift/aligned, class align, Em and described fields: == must equal isinstance and model-tree equality, != its negation, "
-      "neither may raise, repr returns a str.",
+      "neither may raise, repr returns a str. Also: totality against anything_like() pattern packets and classes with embedded packets.",
       "Trusts model value trees read through public attributes as 'the value-bearing fields'.",
       "runtime monitoring: structural-equality oracle over generated packet pairs, totality monitor for ==, != and repr",
       "DESIGN.md section 3 C20")
@@ -185,7 +185,7 @@ check("C13", "exploration",
       "related classes; after every operation every live packet is compared with its shadow value tree and baseline pack() output "
       "(pack twice) and all object graphs are scanned for shared lists / nested packets by id(). Part B: two operations on distinct "
       "packets run in two threads whose field-entry points are forced through enumerated/sampled interleavings (distinct hook orders "
-      "counted). Part C: 8 free-running threads with yield injection at line events inside bisturi and a 1us switch interval.",
+      "counted). Part C: 8 free-running threads with yield injection at line events inside bisturi and a 1us switch interval. Also: single-preemption sweeps at line granularity (sys.monitoring LINE events; thread 0 suspended before its k-th line in the library while thread 1 runs a whole operation), an isolation twin (a packet whose output deviates is rebuilt alone on freshly defined classes), same-named live classes of two factories, bytearray values.",
       "Thread schedules are forced at field-entry granularity and only sampled below it. F2 (regex delimiter remembered on the shared field) "
       "is exhibited by a deterministic probe and reported as KNOWN-FINDING; such fields are left out of the random histories.",
       "runtime monitoring: shadow-state history checker + aliasing scan + controlled thread interleavings + yield injection",
@@ -197,7 +197,7 @@ check("C15", "exploration",
       "class interleaved with cache tampering (foreign module seeded, .py deleted with its .pyc kept, same-second mtime forced from the "
       "child's close hook, cache removed) over designed same-length variant pairs, option-only variants and generated declarations. "
       "After every define a behaviour probe is compared with the reference model of that variant and earlier classes of the process "
-      "are probed again; the observed file-system trace separates cache hits from rewrites.",
+      "are probed again; the observed file-system trace separates cache hits from rewrites. Also: direction-ladder histories in one process, checksum-neutral twins, foreign modules without cookie.",
       "Trusts the probe vectors to distinguish variants and the forced mtime as a faithful stand-in for a same-second write. Histories are sampled.",
       "runtime monitoring: process-level history exploration with fault injection at file-system hooks + behaviour probe against the reference model",
       "DESIGN.md section 3 C15")
@@ -207,7 +207,7 @@ check("C16", "fault_enumeration",
       "every (thorough) byte of every write, from an empty cache and during a rewrite; fresh processes then define the same and a "
       "different same-named declaration. Schedules: two gated definers (identical / different declarations, clean / pre-seeded cache) "
       "are driven step by step through seeded (quick) or depth-first enumerated (thorough, bounded) interleavings, followed by a late "
-      "definer. Stress: free-running processes redefining two variants in one directory. Every definition must succeed and probe per its own declaration.",
+      "definer. Stress: free-running processes redefining two variants in one directory. Every definition must succeed and probe per its own declaration. Also: buffered-write model (a torn write is a death during flush/close), followers carrying the dead definer's pid/thread id, schedules in a directory without cache directory, schedules of two workers forked after the library was imported.",
       "Crash = os._exit at an observed step (no power-loss reordering); interleavings at the granularity of coarsened file-system steps. Watchdog expiry is inconclusive.",
       "runtime monitoring: crash-point enumeration + controlled two-process scheduler + stress, behaviour probe oracle",
       "DESIGN.md section 3 C16")
